@@ -47,6 +47,7 @@ struct Session
     Report& rep;
     std::unique_ptr<IWorld> w;
     bool check = true;
+    bool reload_usable = true;   // after a failed reload(): the text could be read (but differs)
 
     Session(Plan const& plan, Report& r);
     void fresh() { w->fresh(p); }
